@@ -371,6 +371,7 @@ def check_property(prop, tier, only=None, verbose=True, jobs=None):
     obs = [o for o in prop.OBLIGATIONS if tier in o.tiers]
     if only:
         obs = [o for o in obs if any(re.search(x, o.name) for x in only)]
+        os.environ["VERIF_PARTIAL"] = "1"      # a partial run never overwrites the property's evidence file
     known, fixed = load_known_findings()
     scratch = Scratch()
     builder = Builder(scratch)
@@ -491,7 +492,8 @@ def finish(prop, tier, seed, results, known, fixed, build_err, wall, obs):
         violations=len(violations),
     )
     os.makedirs(os.path.join(VERIF, "evidence"), exist_ok=True)
-    with open(os.path.join(VERIF, "evidence", pid + ".json"), "w") as f:
+    evpath = os.path.join(VERIF, "evidence", pid + ".json") if tier in ("quick", "thorough") and not os.environ.get("VERIF_PARTIAL") else "/tmp/verif-evidence-%s-%s.json" % (pid, tier)
+    with open(evpath, "w") as f:
         json.dump(ev, f, indent=1, default=str)
     # report
     seen = set()
